@@ -100,7 +100,7 @@ func c14CheckHeader(r *verifmc.Report, h ref.C14Header) {
 				r.Violate("Header.roundtrip:decode-then-encode-differs:"+c14KindsIn(h.Items), fmt.Sprintf("decode then encode of %s gives %x (err %v)", h, re, err), replay)
 			}
 			if hh := dec.Hash(); !bytes.Equal(hh[:], wantHash) {
-				r.Violate("Header.Hash:decoded-header-hash-differs", fmt.Sprintf("Hash() of the decoded %s is %x, BLAKE2b-256 of its encoding is %x", h, hh, wantHash), replay)
+				r.Violate("Header.Hash:decoded-header-hash-differs", fmt.Sprintf("Hash() of the decoded %s is %x, BLAKE2b-256 of its encoding is %x", h, hh[:], wantHash), replay)
 			}
 		}
 	}
@@ -127,7 +127,7 @@ func c14CheckHeader(r *verifmc.Report, h ref.C14Header) {
 		r.Outcome("encode:equal")
 	}
 	if hh := hdr.Hash(); !bytes.Equal(hh[:], wantHash) {
-		r.Violate("Header.Hash:not-blake2b-of-encoding", fmt.Sprintf("Hash() of %s is %x, BLAKE2b-256 of the reference encoding is %x", h, hh, wantHash), replay)
+		r.Violate("Header.Hash:not-blake2b-of-encoding", fmt.Sprintf("Hash() of %s is %x, BLAKE2b-256 of the reference encoding is %x", h, hh[:], wantHash), replay)
 	} else {
 		r.Outcome("hash:equal")
 	}
@@ -172,7 +172,7 @@ func c14CheckStaleHash(r *verifmc.Report, h ref.C14Header) {
 		if !bytes.Equal(got[:], want) {
 			r.Outcome("hash-after-change:stale")
 			r.Violate("Header.Hash:stale-after-field-change",
-				fmt.Sprintf("Hash() was called, then %s was changed: Hash() still returns %x (the hash of the old contents), BLAKE2b-256 of the current encoding is %x", m.name, got, want),
+				fmt.Sprintf("Hash() was called, then %s was changed: Hash() still returns %x (the hash of the old contents), BLAKE2b-256 of the current encoding is %x", m.name, got[:], want),
 				map[string]any{"header": h.String(), "changed_field": m.name})
 		} else {
 			r.Outcome("hash-after-change:fresh")
